@@ -6,6 +6,9 @@
 //! replay line:   pk=<0|1> wal=<0|1> ops=<op> <op> ...
 //!   I:r,r,...   INSERT INTO t (id, v) VALUES ... RETURNING id      r = n (NULL id) | <int> (explicit id), suffix ! = v NULL (violates NOT NULL)
 //!   O:k         INSERT INTO t (v) VALUES ... (k rows, id column absent) RETURNING id
+//!   T:r,r,...   Database::insert_batch("t", rows)                  (bulk-load API; r = n | <int>)
+//!   P:r,r,...   one PreparedStatement `INSERT INTO t VALUES (?, ?)` executed once per r (the first
+//!               execution runs execute_insert_internal, the later ones insert_cached)
 //!   D:x         DELETE FROM t WHERE id = x          DA   DELETE FROM t
 //!   B / C / R   BEGIN / COMMIT / ROLLBACK           X    close the database and open it again
 use tvh::*;
@@ -16,6 +19,8 @@ use turdb::database::ExecuteResult;
 enum Op {
     Ins(Vec<(Option<i64>, bool)>), // (explicit id or NULL, row is valid)
     InsAbsent(usize),
+    Batch(Vec<Option<i64>>),
+    Prep(Vec<Option<i64>>),
     Del(i64),
     DelAll,
     Begin,
@@ -46,6 +51,11 @@ fn parse_hist(l: &str) -> Option<Hist> {
             }
             Op::Ins(rows)
         } else if let Some(r) = t.strip_prefix("O:") { Op::InsAbsent(r.parse().ok()?) }
+        else if t.starts_with("T:") || t.starts_with("P:") {
+            let mut rows = vec![];
+            for x in t[2..].split(',') { if x == "n" { rows.push(None); } else { rows.push(Some(x.parse::<i64>().ok()?)); } }
+            if t.starts_with("T:") { Op::Batch(rows) } else { Op::Prep(rows) }
+        }
         else if t == "DA" { Op::DelAll }
         else if let Some(r) = t.strip_prefix("D:") { Op::Del(r.parse().ok()?) }
         else if t == "B" { Op::Begin } else if t == "C" { Op::Commit } else if t == "R" { Op::Rollback }
@@ -69,6 +79,13 @@ fn show_hist(h: &Hist) -> String {
                 }
             }
             Op::InsAbsent(k) => s.push_str(&format!("O:{}", k)),
+            Op::Batch(rows) | Op::Prep(rows) => {
+                s.push_str(if matches!(op, Op::Batch(_)) { "T:" } else { "P:" });
+                for (j, id) in rows.iter().enumerate() {
+                    if j > 0 { s.push(','); }
+                    match id { None => s.push('n'), Some(v) => s.push_str(&v.to_string()) }
+                }
+            }
             Op::Del(x) => s.push_str(&format!("D:{}", x)),
             Op::DelAll => s.push_str("DA"),
             Op::Begin => s.push('B'), Op::Commit => s.push('C'), Op::Rollback => s.push('R'), Op::Reopen => s.push('X'),
@@ -82,6 +99,9 @@ fn show_hist(h: &Hist) -> String {
 enum Obs {
     InsOk(Vec<i64>),          // RETURNING id, one per row
     InsErr(Vec<i64>, String), // statement failed; ids of the rows of this statement that are in the table afterwards (row order)
+    BatchOk(Vec<Option<i64>>),          // insert_batch returned Ok; id (or NULL) found in the table per row
+    BatchErr(Vec<Option<i64>>, String), // insert_batch returned Err; ids of the rows of this call in the table afterwards
+    Prep(Vec<Option<Option<i64>>>),     // per execution: None = Err, Some(id or NULL) = Ok and the id found in the table
     Other(bool),              // ok?
     Weird(String),            // something the case language cannot express (panic, non-integer id, ...)
 }
@@ -157,6 +177,41 @@ fn run_hist(h: &Hist, dir: &std::path::Path) -> Vec<Obs> {
                     }
                 }
             }
+            Op::Batch(rows) => {
+                let vals: Vec<Vec<OwnedValue>> = rows.iter().enumerate().map(|(j, id)| vec![
+                    match id { None => OwnedValue::Null, Some(v) => OwnedValue::Int(*v) }, OwnedValue::Int(tag0 + j as i64)]).collect();
+                let r = catch(std::panic::AssertUnwindSafe(|| d.insert_batch("t", &vals)));
+                let found = rows_by_tag(d, tag0, rows.len());
+                match (r, found) {
+                    (Caught::Panicked(m), _) => Obs::Weird(format!("panic: {}", m)),
+                    (_, Err(e)) => Obs::Weird(e),
+                    (Caught::Done(Ok(_)), Ok(f)) => if f.len() == rows.len() { Obs::BatchOk(f) } else { Obs::Weird("insert_batch Ok but rows missing".into()) },
+                    (Caught::Done(Err(e)), Ok(f)) => Obs::BatchErr(f, format!("{:#}", e)),
+                }
+            }
+            Op::Prep(rows) => {
+                match catch(std::panic::AssertUnwindSafe(|| d.prepare("INSERT INTO t VALUES (?, ?)"))) {
+                    Caught::Panicked(m) => Obs::Weird(format!("panic in prepare: {}", m)),
+                    Caught::Done(Err(e)) => Obs::Weird(format!("prepare: {:#}", e)),
+                    Caught::Done(Ok(stmt)) => {
+                        let mut outs = vec![];
+                        let mut weird = None;
+                        for (j, id) in rows.iter().enumerate() {
+                            let idv = match id { None => OwnedValue::Null, Some(v) => OwnedValue::Int(*v) };
+                            let tag = tag0 + j as i64;
+                            let r = catch(std::panic::AssertUnwindSafe(|| stmt.bind(idv).bind(OwnedValue::Int(tag)).execute(d)));
+                            let found = rows_by_tag(d, tag, 1);
+                            match (r, found) {
+                                (Caught::Panicked(m), _) => { weird = Some(format!("panic: {}", m)); break; }
+                                (_, Err(e)) => { weird = Some(e); break; }
+                                (Caught::Done(Ok(_)), Ok(f)) => if f.len() == 1 { outs.push(Some(f[0])); } else { weird = Some("prepared INSERT Ok but row missing".into()); break; },
+                                (Caught::Done(Err(_)), Ok(f)) => if f.is_empty() { outs.push(None); } else { weird = Some("prepared INSERT Err but row present".into()); break; },
+                            }
+                        }
+                        match weird { Some(m) => Obs::Weird(m), None => Obs::Prep(outs) }
+                    }
+                }
+            }
             Op::Del(_) | Op::DelAll | Op::Begin | Op::Commit | Op::Rollback => {
                 let sql = match op {
                     Op::Del(x) => format!("DELETE FROM t WHERE id = {}", x),
@@ -185,6 +240,29 @@ fn run_hist(h: &Hist, dir: &std::path::Path) -> Vec<Obs> {
     drop(db);
     let _ = std::fs::remove_dir_all(dir);
     obs
+}
+
+/// ids (or NULL) of the rows tagged tag0 .. tag0+n-1 that are in the table, in tag order; must be a prefix
+fn rows_by_tag(d: &Database, tag0: i64, n: usize) -> Result<Vec<Option<i64>>, String> {
+    let q = format!("SELECT id, v FROM t WHERE v >= {} AND v < {}", tag0, tag0 + n as i64);
+    match catch(std::panic::AssertUnwindSafe(|| d.query(&q))) {
+        Caught::Done(Ok(rows)) => {
+            let mut left: Vec<(i64, Option<i64>, bool)> = vec![];
+            for r in rows.iter() {
+                let v = match r.values.get(1).and_then(int_of) { Some(v) => v, None => return Err("non-integer tag".into()) };
+                match r.values.get(0) {
+                    Some(OwnedValue::Int(i)) => left.push((v, Some(*i), true)),
+                    Some(OwnedValue::Null) => left.push((v, None, true)),
+                    _ => return Err("id read back is neither integer nor NULL".into()),
+                }
+            }
+            left.sort();
+            if left.iter().enumerate().any(|(k, (v, _, _))| *v != tag0 + k as i64) { return Err("rows in the table are not a prefix of the call's rows".into()); }
+            Ok(left.into_iter().map(|x| x.1).collect())
+        }
+        Caught::Done(Err(e)) => Err(format!("select by tag: {:#}", e)),
+        Caught::Panicked(m) => Err(format!("panic in select by tag: {}", m)),
+    }
 }
 
 fn tmp_dir(tag: &str) -> std::path::PathBuf {
@@ -247,20 +325,54 @@ fn judge(h: &Hist, obs: &[Obs]) -> (Vec<(i64, bool)>, bool, u8) {
     let mut agrees = obs.len() == h.ops.len();
     let mut class = 0u8;
     let mut ai = 0u64;
+    // insert_cached / insert_batch: ids stored as given, counter untouched
+    fn bulk(ai: u64, rows: &[Option<i64>], seen: &[Option<i64>], trace: &mut Vec<(i64, bool)>, agrees: &mut bool, class: &mut u8) {
+        for (r, s) in rows.iter().zip(seen.iter()) {
+            if r != s { *agrees = false; }
+            if let Some(id) = s {
+                trace.push((*id, r.is_none()));
+                if *class == 0 && r.is_some() && (*id as i128) > ai as i128 { *class = 4; }
+            }
+        }
+    }
     for (op, o) in h.ops.iter().zip(obs.iter()) {
         if let Obs::Weird(_) = o { agrees = false; }
-        let rows = match rows_of(op) { Some(r) => r, None => continue };
-        let (ids, ext) = match o {
-            Obs::InsOk(ids) => (ids.clone(), None),
-            Obs::InsErr(left, _) => (left.clone(), Some(left.len())),
-            _ => { agrees = false; continue; }
-        };
-        for (r, id) in rows.iter().zip(ids.iter()) { trace.push((*id, r.is_none())); }
-        let m = mirror_stmt(ai, &rows, ext);
-        let mids: Vec<i64> = m.written.iter().map(|x| x.0).collect();
-        if mids != ids || m.ok != ext.is_none() { agrees = false; }
-        if class == 0 { class = m.class; }
-        ai = m.ai;
+        match (op, o) {
+            (Op::Batch(rows), Obs::BatchOk(seen)) => { if seen.len() != rows.len() { agrees = false; } bulk(ai, rows, seen, &mut trace, &mut agrees, &mut class); }
+            (Op::Batch(rows), Obs::BatchErr(seen, _)) => { if seen.len() >= rows.len() { agrees = false; } bulk(ai, rows, seen, &mut trace, &mut agrees, &mut class); }
+            (Op::Prep(rows), Obs::Prep(outs)) => {
+                if outs.len() != rows.len() { agrees = false; }
+                for (j, (r, out)) in rows.iter().zip(outs.iter()).enumerate() {
+                    if j == 0 {
+                        let m = mirror_stmt(ai, &[*r], if out.is_none() { Some(0) } else { None });
+                        match out {
+                            Some(Some(id)) => { trace.push((*id, r.is_none())); if !(m.ok && m.written.len() == 1 && m.written[0].0 == *id) { agrees = false; } }
+                            Some(None) => { agrees = false; }
+                            None => { if m.ok { agrees = false; } }
+                        }
+                        if class == 0 { class = m.class; }
+                        ai = m.ai;
+                    } else if let Some(seen) = out {
+                        bulk(ai, &[*r], &[*seen], &mut trace, &mut agrees, &mut class);
+                    }
+                }
+            }
+            (Op::Batch(_), _) | (Op::Prep(_), _) => { agrees = false; }
+            _ => {
+                let rows = match rows_of(op) { Some(r) => r, None => continue };
+                let (ids, ext) = match o {
+                    Obs::InsOk(ids) => (ids.clone(), None),
+                    Obs::InsErr(left, _) => (left.clone(), Some(left.len())),
+                    _ => { agrees = false; continue; }
+                };
+                for (r, id) in rows.iter().zip(ids.iter()) { trace.push((*id, r.is_none())); }
+                let m = mirror_stmt(ai, &rows, ext);
+                let mids: Vec<i64> = m.written.iter().map(|x| x.0).collect();
+                if mids != ids || m.ok != ext.is_none() { agrees = false; }
+                if class == 0 { class = m.class; }
+                ai = m.ai;
+            }
+        }
     }
     (trace, agrees, class)
 }
@@ -283,7 +395,26 @@ fn zlist(v: &[i64]) -> String { clist(&v.iter().map(|x| zt(*x)).collect::<Vec<_>
 fn case_term(h: &Hist, obs: &[Obs]) -> String {
     if obs.len() != h.ops.len() || obs.iter().any(|o| matches!(o, Obs::Weird(_))) { return "Weird".into(); }
     let mut items = vec![];
+    fn rows_term(rows: &[Option<i64>]) -> String {
+        clist(&rows.iter().map(|r| match r { None => "RNull".to_string(), Some(v) => format!("RInt {}", zt(*v)) }).collect::<Vec<_>>())
+    }
+    fn oz(v: &Option<i64>) -> String { match v { None => "None".to_string(), Some(i) => format!("Some {}", zt(*i)) } }
     for (op, o) in h.ops.iter().zip(obs.iter()) {
+        match (op, o) {
+            (Op::Batch(rows), Obs::BatchOk(seen)) | (Op::Batch(rows), Obs::BatchErr(seen, _)) => {
+                let ids = clist(&seen.iter().map(oz).collect::<Vec<_>>());
+                let ob = if matches!(o, Obs::BatchOk(_)) { format!("BOk {}", ids) } else { format!("BErr {}", ids) };
+                items.push(format!("CBatch {} ({})", rows_term(rows), ob));
+                continue;
+            }
+            (Op::Prep(rows), Obs::Prep(outs)) => {
+                let os = clist(&outs.iter().map(|x| match x { None => "PErr".to_string(), Some(id) => format!("POk ({})", oz(id)) }).collect::<Vec<_>>());
+                items.push(format!("CPrep {} {}", rows_term(rows), os));
+                continue;
+            }
+            (Op::Batch(_), _) | (Op::Prep(_), _) => return "Weird".into(),
+            _ => {}
+        }
         let t = match (rows_of(op), o) {
             (Some(rows), Obs::InsOk(ids)) | (Some(rows), Obs::InsErr(ids, _)) => {
                 let rs: Vec<String> = rows.iter().map(|r| match r { None => "RNull".to_string(), Some(v) => format!("RInt {}", zt(*v)) }).collect();
@@ -356,6 +487,46 @@ impl<'a> G<'a> {
         if rows.is_empty() { rows.push((None, true)); }
         self.push_ins(rows);
     }
+    fn push_batch(&mut self, rows: Vec<Option<i64>>) {
+        for r in &rows { if let Some(v) = r { self.used.push(*v); } }
+        self.ops.push(Op::Batch(rows));
+    }
+    fn push_prep(&mut self, rows: Vec<Option<i64>>) {
+        if let Some(r0) = rows.first() {
+            let m = mirror_stmt(self.ai, &[*r0], None);
+            for (v, _) in &m.written { self.used.push(*v); }
+            self.ai = m.ai;
+        }
+        for r in rows.iter().skip(1) { if let Some(v) = r { self.used.push(*v); } }
+        self.ops.push(Op::Prep(rows));
+    }
+    /// ids for insert_cached / insert_batch that keep the history outside class 4: NULL, unused ids
+    /// at or below the counter, ids the column already held
+    fn bulk_rows_clean(&mut self, n: usize) -> Vec<Option<i64>> {
+        let mut rows = vec![];
+        for _ in 0..n {
+            let r = match self.rng.below(4) {
+                0 => None,
+                1 => self.fresh_below(),
+                2 => { let v = self.some_used(); if (v as i128) <= self.ai as i128 { Some(v) } else { None } }
+                _ => if self.ai > 0 { Some(self.rng.below(self.ai.min(1 << 40) + 1) as i64) } else { None },
+            };
+            rows.push(r);
+        }
+        rows
+    }
+    fn bulk_clean(&mut self) {
+        let n = 1 + self.rng.below(3) as usize;
+        let rows = self.bulk_rows_clean(n);
+        if self.rng.chance(1, 2) { self.push_batch(rows); }
+        else {
+            // first execution of a prepared statement is an ordinary INSERT: NULL or an id above the counter
+            let first = if self.rng.chance(2, 3) { None } else { Some(self.fresh_above()) };
+            let mut all = vec![first];
+            all.extend(rows);
+            self.push_prep(all);
+        }
+    }
     fn delete(&mut self) {
         if self.rng.chance(1, 6) { self.ops.push(Op::DelAll); } else { let v = self.some_used(); self.ops.push(Op::Del(v)); }
     }
@@ -382,10 +553,11 @@ fn gen_history(rng: &mut Rng, thorough: bool) -> (Hist, &'static str) {
     let len = 2 + rng.below(maxlen) as usize;
     let mut g = G::new(rng);
     let kind: &'static str;
-    if fam < 30 {
-        kind = "clean_mix";           // inserts, deletes, transactions, reopen: all outside the classes
+    if fam < 27 {
+        kind = "clean_mix";           // inserts, deletes, transactions, reopen, bulk paths: all outside the classes
         while g.ops.len() < len {
-            match g.rng.below(10) {
+            match g.rng.below(11) {
+                10 => g.bulk_clean(),
                 0..=4 => g.clean_insert(),
                 5 => g.delete(),
                 6 => g.txn(true),
@@ -394,18 +566,18 @@ fn gen_history(rng: &mut Rng, thorough: bool) -> (Hist, &'static str) {
                 _ => { let v = g.some_used(); g.push_ins(vec![(Some(v), true)]); }   // explicit id the column held (duplicate / PK error)
             }
         }
-    } else if fam < 42 {
+    } else if fam < 38 {
         kind = "rollback";            // ids consumed inside rolled-back transactions, then more inserts
         while g.ops.len() < len {
             match g.rng.below(6) { 0 | 1 => g.txn(false), 2 => g.txn(true), 3 => g.delete(), _ => g.clean_insert() }
         }
         if g.rng.chance(1, 3) { g.ops.push(Op::Begin); g.clean_insert(); g.reopen(); }   // close with a transaction open
-    } else if fam < 55 {
+    } else if fam < 50 {
         kind = "reopen";              // several close + open cycles
         while g.ops.len() < len + 4 {
             match g.rng.below(6) { 0 | 1 => g.reopen(), 2 => g.delete(), 3 => { let c = g.rng.chance(1, 2); g.txn(c) } _ => g.clean_insert() }
         }
-    } else if fam < 67 {
+    } else if fam < 61 {
         kind = "failing_first_row";   // statements that fail before writing anything: no effect on the counter
         while g.ops.len() < len {
             match g.rng.below(6) {
@@ -415,7 +587,7 @@ fn gen_history(rng: &mut Rng, thorough: bool) -> (Hist, &'static str) {
                 _ => g.clean_insert(),
             }
         }
-    } else if fam < 77 {
+    } else if fam < 70 {
         kind = "failing_later_row";   // class 2 and its neighbourhood
         while g.ops.len() < len {
             match g.rng.below(6) {
@@ -432,7 +604,7 @@ fn gen_history(rng: &mut Rng, thorough: bool) -> (Hist, &'static str) {
                 _ => g.clean_insert(),
             }
         }
-    } else if fam < 89 {
+    } else if fam < 81 {
         kind = "mixed_statement";     // explicit and NULL ids interleaved in one statement: class 1 and its neighbourhood
         while g.ops.len() < len {
             match g.rng.below(5) {
@@ -449,6 +621,18 @@ fn gen_history(rng: &mut Rng, thorough: bool) -> (Hist, &'static str) {
                     g.push_ins(rows);
                 }
                 3 => g.delete(),
+                _ => g.clean_insert(),
+            }
+        }
+    } else if fam < 90 {
+        kind = "bulk_paths";          // insert_batch and re-executed prepared INSERTs: class 4 and its neighbourhood
+        while g.ops.len() < len {
+            match g.rng.below(8) {
+                0 | 1 => g.bulk_clean(),
+                2 => { let v = g.fresh_above(); let mut rows = g.bulk_rows_clean(1); rows.push(Some(v)); g.push_batch(rows); }
+                3 => { let v = g.fresh_above(); let k = g.rng.below(2) as usize; let mut rows = vec![None]; rows.extend(g.bulk_rows_clean(k)); rows.push(Some(v)); g.push_prep(rows); }
+                4 => g.delete(),
+                5 => { let c = g.rng.chance(1, 2); g.txn(c) }
                 _ => g.clean_insert(),
             }
         }
